@@ -46,6 +46,9 @@ CHECKS = {
  "C14": ("Intrinsic and trace contracts attached to the __call__ of the Center, Scale, BSpline and Polynomial classes (they fire on direct calls, through design_matrices and while the repository's tests run): mean zero / unit population sd on the first call, the same affine map on every later call (slope and offset recovered from the first call's input and output), spline column count, non-negativity and partition of unity inside the boundary knots, orthonormality / orthogonality to the constant / span of 1..x^d for poly, exact powers for raw=True; a driver over seeded vectors (ties, large offsets, small n, exactly zero mean, integers) x parameter combinations x several later inputs x several instances per process, and a list of invalid parameter combinations that must be refused.",
          "Numerical tolerances as stated in the evidence; spline contracts skip degenerate knot sequences (coinciding percentiles) and x outside the boundary knots.",
          "intrinsic + trace runtime contracts on the real transform classes (mathematical identities as oracle)"),
+ "C15": ("Boundary checks on design_matrices(...).response for every response form (float / int column, call, str / object / unordered Categorical declared unsorted / ordered Categorical with an unobserved declared level, y[ident], y['quoted level'], prop / p / proportion with column or constant trials, none): values, shapes, level order, `levels` and `kind` are rebuilt from the frame alone; refused forms (a:b ~, a + b ~, a*b ~, (a|g) ~, 1 ~, 0 ~) must raise; relational check that the common and group matrices, slices and labels of one right-hand side are identical under every response form. Frames include single-row and single-level ones and hostile level names.",
+         "Shapes follow the pinned layout (categorical and proportion responses 2-d, numeric and y[level] responses n entries).",
+         "runtime boundary monitor with frame-derived pointwise oracle + relational response-swap shadows"),
 }
 NOT_APPLICABLE = {}
 PENDING = [f"C{i:02d}" for i in range(1, 18) if f"C{i:02d}" not in CHECKS]
